@@ -251,6 +251,61 @@ pub fn run(rep: &mut Rep) {
     } else {
         rep.inconclusive("RLN instance could not be created for the message-bytes leg".to_string());
     }
+    // stateful leg: bytes 128..288 written by generate_rln_proof must be the formulas applied to the witness the
+    // tree yields for that index (secret, limit, path of the index) -- also when the leaf at the index is not the
+    // member's commitment (other limit, empty / overwritten / deleted leaf): the circuit folds the path, it does
+    // not read the tree's root
+    #[cfg(not(feature = "stateless"))]
+    {
+        use crate::model::Model;
+        use std::io::Cursor;
+        let mut rng = rng_for(rep.seed, "c04-stateful");
+        if let Ok(Ok(mut r)) = catch(|| rln::public::RLN::new(20, Cursor::new("{}".to_string()))) {
+            let mut m = Model::new(20, crate::trees::poseidon_h, Fr::from(0u64));
+            let secret = rand_fr(&mut rng);
+            let rc = rate_commitment_ref(&secret, &Fr::from(100u64));
+            for (i, v) in [(0usize, rand_fr(&mut rng)), (1, rc), (2, rand_fr(&mut rng)), (5, rand_fr(&mut rng)), ((1 << 20) - 1, rand_fr(&mut rng))] {
+                let _ = r.set_leaf(i, Cursor::new(enc_fr(&v)));
+                m.set(i, v);
+            }
+            let _ = r.delete_leaf(2);
+            m.delete(2);
+            let trials: Vec<(&str, usize, u64, u64)> = vec![
+                ("member", 1, 100, 7),
+                ("member-other-limit", 1, 50, 7),
+                ("member-limit-2^16", 1, 65536, 65535),
+                ("other-occupied-index", 0, 100, 7),
+                ("deleted-index", 2, 100, 1),
+                ("never-set-index", 3, 100, 0),
+                ("last-index", (1 << 20) - 1, 100, 99),
+                ("far-empty-index", 1 << 19, 100, 3),
+            ];
+            let n = if thorough { trials.len() } else { 5 };
+            for (lab, idx, limit, id) in trials.into_iter().take(n) {
+                rep.ev();
+                rep.stratum(format!("stateful-message-bytes|{lab}"));
+                let sig = rand_bytes(&mut rng, 12);
+                let ext = rand_fr(&mut rng);
+                let req = enc_prove_request(&secret, idx as u64, &Fr::from(limit), &Fr::from(id), &ext, &sig);
+                let (path, bits) = m.proof(idx);
+                let w = Witness { secret, limit: Fr::from(limit), msg_id: Fr::from(id), path, bits, x: crate::refhash::hash_to_field_ref(&sig), ext };
+                let want = enc_proof_values(&ref_values(&w));
+                let mut out = vec![];
+                match catch(|| r.generate_rln_proof(Cursor::new(req), &mut out).map_err(|e| e.to_string())) {
+                    Ok(Ok(())) => {
+                        if out.len() != 288 || out[128..] != want[..] {
+                            let which = (0..5).find(|f| out.len() == 288 && out[128 + 32 * f..160 + 32 * f] != want[32 * f..32 * f + 32]).map(|f| ["root", "external_nullifier", "x", "y", "nullifier"][f]).unwrap_or("length");
+                            rep.violation(format!("generate_rln_proof:message-bytes-128..288:mismatch:{which}"), json!({"case": lab, "index": idx, "limit": limit, "got": hex(&out[128.min(out.len())..]), "expected": hex(&want)}));
+                        }
+                        rep.count("stateful_message_bytes_checked");
+                    }
+                    // refusing a request for a position that does not hold the member's commitment is fine for C04
+                    Ok(Err(_)) => rep.count("stateful_request_refused"),
+                    Err(p) => rep.violation(format!("generate_rln_proof:panic:{}", p.file()), json!({"case": lab, "panic": p.msg})),
+                }
+            }
+        }
+    }
     if let Some((lab, w)) = cases.first() {
         let v = ref_values(w);
         rep.sample(json!({"case": lab, "witness_hex": hex_short(&enc_witness(w)), "y": fr_s(&v.y), "root": fr_s(&v.root), "nullifier": fr_s(&v.nullifier)}));
